@@ -148,8 +148,10 @@ func (c *RetryClient) publish(ctx context.Context, cli *BaseClient, message *Mes
 			c.onError(err)
 			select {
 			case <-ctx.Done():
-				// User cancelled; don't queue.
-				return
+				if _, timeout := ctx.Err().(*RequestTimeoutError); !timeout {
+					// User cancelled; don't queue.
+					return
+				}
 			default:
 			}
 			if retryErr, ok := err.(ErrorWithRetry); ok {
@@ -185,7 +187,7 @@ func (c *RetryClient) subscribe(ctx context.Context, retry bool, cli *BaseClient
 			c.onError(err)
 			select {
 			case <-ctx.Done():
-				if !retry {
+				if _, timeout := ctx.Err().(*RequestTimeoutError); !retry && !timeout {
 					// User cancelled; don't queue.
 					return nil
 				}
@@ -217,8 +219,10 @@ func (c *RetryClient) unsubscribe(ctx context.Context, cli *BaseClient, topics .
 			c.onError(err)
 			select {
 			case <-ctx.Done():
-				// User cancelled; don't queue.
-				return nil
+				if _, timeout := ctx.Err().(*RequestTimeoutError); !timeout {
+					// User cancelled; don't queue.
+					return nil
+				}
 			default:
 			}
 			if retryErr, ok := err.(ErrorWithRetry); ok {
